@@ -87,13 +87,15 @@ func runDialFailsWhileAnotherDialerRegisters(c *Ctx) {
 		time.Sleep(120 * time.Millisecond) // eight reconnect times
 		after := do.NAttempts()
 		close(stop)
-		c.Class(fmt.Sprintf("dial fails while another dialer registers: attempts after close=%v", after > atClose), true)
+		// one attempt may have passed the dialer's closed test just before Close and reach the transport just after
+		late := after - atClose
+		c.Class(fmt.Sprintf("dial fails while another dialer registers: attempts after close=%v", late > 1), true)
 		obs := "0"
-		if after > atClose {
-			obs = fmt.Sprint(after - atClose)
+		if late > 1 {
+			obs = fmt.Sprint(late)
 		}
 		c.T.Line("dial race", "cl.check redial", obs)
-		if after > atClose {
+		if late > 1 {
 			c.Violate(fmt.Sprintf("dialer: %d connection attempts were started after Socket.Close by a dialer of that socket (reconnect time 15 ms; it had made %d attempts before Close) — a synchronous Dial on the same socket had failed while this dialer was being added", after-atClose, before),
 				map[string]interface{}{"history": []string{"go Socket.Dial(slow) (parks in the transport)", "NewDialer(other, DIAL-ASYNCH) + Dial: redials every 15 ms, each attempt refused", "the first Dial is refused", "Socket.Close", "count attempts of `other` for 120 ms"}})
 		}
